@@ -5,3 +5,4 @@ import OapiVerif.Props.C14
 import OapiVerif.Props.C04
 import OapiVerif.Props.C05
 import OapiVerif.Props.C06
+import OapiVerif.Props.C03
